@@ -6,15 +6,24 @@
 //
 // Script (one execution per data file):
 //
-//	{"ev":"reset","large":8,"small":2,"buf":2,"n":83,"ka":7,"kb":3,"real":false}
+//	{"ev":"reset","large":8,"small":2,"buf":2,"n":83,"unit":1,"ka":7,"kb":3,"real":false}
 //	{"ev":"encode"}
 //	{"ev":"reads","off":16,"sizes":[1,2,8,67]}
 //	{"ev":"rebuild","lost":[0,11]}
-//	{"ev":"decode","size":83}
+//	{"ev":"decode","size":83}                            (unit is echoed into the recorded event)
+//	{"ev":"mount","needles":[[5,2,100],[9,40,3000]]}     (real=true only: id, offset/8, size)
+//	{"ev":"needle","id":9}
 //
 // real=false: generateEcFiles / generateMissingEcFiles through the verif hook
 // with the given block sizes; real=true: WriteEcFiles / RebuildEcFiles /
 // WriteDatFile with the production constants (1 GiB / 1 MiB).
+// unit > 1 (by hand only, tens of GiB of disk): the data file has n*unit bytes, is
+// sparse with a distinct 8-byte mark at the start of every MiB, and only encode and
+// decode (size in the same unit) are supported.
+//
+// mount writes an .ecx with the given entries and opens the real EcVolume with its
+// 14 EcVolumeShards; needle runs EcVolume.LocateEcShardNeedle and reads the intervals
+// as Store.readOneEcShardInterval does for local shards (FindEcVolumeShard + ReadAt).
 //
 // A read mirrors EcVolume.LocateEcShardNeedle + Store.readOneEcShardInterval:
 // LocateData(large, small, DataShardsCount*<size of a shard file>, off, size),
@@ -25,13 +34,18 @@ package main
 import (
 	"bytes"
 	"crypto/sha256"
+	"encoding/binary"
 	"encoding/hex"
 	"flag"
 	"fmt"
+	"io"
 	"os"
 	"path/filepath"
+	"sort"
 
 	ec "github.com/chrislusf/seaweedfs/weed/storage/erasure_coding"
+	"github.com/chrislusf/seaweedfs/weed/storage/needle"
+	"github.com/chrislusf/seaweedfs/weed/storage/needle_map"
 	"github.com/chrislusf/seaweedfs/weed/storage/types"
 
 	"verifharness/tr"
@@ -43,11 +57,13 @@ type exec struct {
 	large, small int64
 	buf          int
 	n            int
+	unit         int // 1, or bytes per unit of n for the huge sparse files
 	ka, kb       int
 	real         bool
 	pristine     [][]byte // the 14 shard files as the encoder wrote them
 	dirty        bool     // the shard files on disk may differ from pristine (after a rebuild)
 	onDisk       [][]byte // the shard files as last read back from disk (nil: not loaded)
+	vol          *ec.EcVolume
 }
 
 // datByte is the content convention of the script: byte i of the data file.
@@ -81,11 +97,16 @@ func hashBytes(p []byte) string {
 }
 
 func hashFile(name string) string {
-	p, err := os.ReadFile(name)
+	f, err := os.Open(name)
 	if err != nil {
 		return "missing"
 	}
-	return hashBytes(p)
+	defer f.Close()
+	h := sha256.New()
+	if _, err := io.Copy(h, f); err != nil {
+		return "unreadable"
+	}
+	return hex.EncodeToString(h.Sum(nil)[:8])
 }
 
 func errStr(err error) string {
@@ -121,7 +142,46 @@ func (x *exec) restore() {
 	}
 }
 
+// encodeHuge: sparse data file of n*unit bytes, production encoder; nothing is kept in memory.
+func (x *exec) encodeHuge(e tr.Ev) {
+	size := int64(x.n) * int64(x.unit)
+	f, err := os.Create(x.base + ".dat")
+	if err != nil {
+		tr.Fatal("create dat: %v", err)
+	}
+	if err = f.Truncate(size); err != nil {
+		tr.Fatal("truncate dat: %v", err)
+	}
+	mark := make([]byte, 8)
+	for o := int64(0); o+8 <= size; o += 1 << 20 {
+		binary.BigEndian.PutUint64(mark, uint64(o>>20)+1)
+		mark[0] = byte(x.ka)
+		if _, err = f.WriteAt(mark, o); err != nil {
+			tr.Fatal("mark dat: %v", err)
+		}
+	}
+	f.Close()
+	e["dat"] = hashFile(x.base + ".dat")
+	e["err"] = errStr(ec.WriteEcFiles(x.base))
+	sizes := make([]int, ec.TotalShardsCount)
+	hashes := make([]string, ec.TotalShardsCount)
+	for i := range sizes {
+		sizes[i] = -1
+		if fi, serr := os.Stat(x.shardName(i)); serr == nil {
+			sizes[i] = int(fi.Size() / int64(x.unit))
+		}
+		hashes[i] = hashFile(x.shardName(i))
+	}
+	e["sizes"] = sizes
+	e["hashes"] = hashes
+	e["runs"] = [][][2]int{}
+}
+
 func (x *exec) encode(e tr.Ev) {
+	if x.unit > 1 {
+		x.encodeHuge(e)
+		return
+	}
 	p := make([]byte, x.n)
 	for i := range p {
 		p[i] = x.datByte(i)
@@ -240,11 +300,78 @@ func (x *exec) rebuild(e tr.Ev) {
 	e["after"] = after
 }
 
+func (x *exec) mount(e tr.Ev) {
+	x.restore()
+	entries := tr.List(e["needles"])
+	sort.Slice(entries, func(i, j int) bool { return tr.Ints(entries[i])[0] < tr.Ints(entries[j])[0] })
+	var ecx []byte
+	for _, en := range entries {
+		v := tr.Ints(en)
+		ecx = append(ecx, needle_map.ToBytes(types.NeedleId(v[0]), types.ToOffset(int64(v[1])*types.NeedlePaddingSize), types.Size(v[2]))...)
+	}
+	if err := os.WriteFile(x.base+".ecx", ecx, 0644); err != nil {
+		tr.Fatal("write ecx: %v", err)
+	}
+	if x.vol != nil {
+		x.vol.Close()
+		x.vol = nil
+	}
+	vol, err := ec.NewEcVolume(types.HardDriveType, x.dir, x.dir, "", needle.VolumeId(1))
+	if err == nil {
+		for i := 0; i < ec.TotalShardsCount && err == nil; i++ {
+			var sh *ec.EcVolumeShard
+			if sh, err = ec.NewEcVolumeShard(types.HardDriveType, x.dir, "", needle.VolumeId(1), ec.ShardId(i)); err == nil {
+				vol.AddEcVolumeShard(sh)
+			}
+		}
+	}
+	if err == nil {
+		x.vol = vol
+	}
+	e["err"] = errStr(err)
+}
+
+func (x *exec) needle(e tr.Ev) {
+	e["err"], e["off"], e["nsize"], e["asize"], e["got"] = "", -1, 0, 0, [][2]int{}
+	if x.vol == nil {
+		e["err"] = "not mounted"
+		return
+	}
+	offset, size, intervals, err := x.vol.LocateEcShardNeedle(types.NeedleId(tr.I(e, "id")), x.vol.Version)
+	if err != nil {
+		e["err"] = errStr(err)
+		return
+	}
+	e["off"] = offset.ToActualOffset()
+	e["nsize"] = int(size)
+	var data []byte
+	asize := 0
+	for _, iv := range intervals {
+		asize += int(iv.Size)
+		shardId, actualOffset := iv.ToShardIdAndOffset(ec.ErasureCodingLargeBlockSize, ec.ErasureCodingSmallBlockSize)
+		shard, found := x.vol.FindEcVolumeShard(shardId)
+		if !found {
+			e["err"] = "shard not found"
+			break
+		}
+		d := make([]byte, iv.Size)
+		m, rerr := shard.ReadAt(d, actualOffset)
+		data = append(data, d[:m]...)
+		if rerr != nil {
+			e["err"] = errStr(rerr)
+			break
+		}
+	}
+	e["asize"] = asize
+	e["got"] = x.runs(data)
+}
+
 func (x *exec) decode(e tr.Ev) {
 	x.restore()
 	os.Rename(x.base+".dat", x.base+".orig")
-	err := ec.WriteDatFile(x.base, int64(tr.I(e, "size")))
+	err := ec.WriteDatFile(x.base, int64(tr.I(e, "size"))*int64(x.unit))
 	e["err"] = errStr(err)
+	e["unit"] = x.unit
 	e["hash"] = hashFile(x.base + ".dat")
 	os.Remove(x.base + ".dat")
 	os.Rename(x.base+".orig", x.base+".dat")
@@ -262,7 +389,13 @@ func main() {
 			tr.Fatal("mkdtemp: %v", err)
 		}
 		x := &exec{dir: dir, base: filepath.Join(dir, "1"), large: int64(tr.I(r, "large")), small: int64(tr.I(r, "small")),
-			buf: tr.I(r, "buf"), n: tr.I(r, "n"), ka: tr.I(r, "ka"), kb: tr.I(r, "kb"), real: tr.B(r, "real")}
+			buf: tr.I(r, "buf"), n: tr.I(r, "n"), unit: tr.I(r, "unit"), ka: tr.I(r, "ka"), kb: tr.I(r, "kb"), real: tr.B(r, "real")}
+		if x.unit <= 0 {
+			x.unit = 1
+		}
+		if x.unit > 1 && !x.real {
+			tr.Fatal("script: unit > 1 needs real=true")
+		}
 		if !x.real && (x.buf <= 0 || x.large%int64(x.buf) != 0 || x.small%int64(x.buf) != 0) {
 			tr.Fatal("script: buf %d must divide the block sizes %d/%d", x.buf, x.large, x.small)
 		}
@@ -276,6 +409,12 @@ func main() {
 			if kind != "encode" && !encoded {
 				tr.Fatal("script: %s before encode", kind)
 			}
+			if (kind == "mount" || kind == "needle") && !x.real {
+				tr.Fatal("script: %s needs real=true", kind)
+			}
+			if x.unit > 1 && kind != "encode" && kind != "decode" {
+				tr.Fatal("script: %s not supported with unit > 1", kind)
+			}
 			pan := tr.Guard(func() {
 				switch kind {
 				case "encode":
@@ -287,6 +426,10 @@ func main() {
 					x.rebuild(e)
 				case "decode":
 					x.decode(e)
+				case "mount":
+					x.mount(e)
+				case "needle":
+					x.needle(e)
 				default:
 					tr.Fatal("unknown op %v", kind)
 				}
@@ -296,6 +439,9 @@ func main() {
 				break
 			}
 			w.Emit(e)
+		}
+		if x.vol != nil {
+			x.vol.Close()
 		}
 		os.RemoveAll(dir)
 	}
